@@ -291,7 +291,7 @@ def run(ctx):
 
 CHECK = {
     "lean_modules": ["P3R.Props.C14Siblings", "P3R.Props.C14", "P3R.Witness.C14", "P3R.Props.C14Merge", "P3R.Witness.C14Merge",
-                     "P3R.Props.C14Phases", "P3R.Witness.C14Phases"],
+                     "P3R.Props.C14Phases", "P3R.Witness.C14Phases", "P3R.Props.C14Labels", "P3R.Witness.C14Labels"],
     "lean_exes": ["p3r_driver_c14"],
     "theorems": [
         "P3R.C14.packing_aligned_uni", "P3R.C14.packing_aligned_batch",
@@ -308,11 +308,23 @@ CHECK = {
         "P3R.Witness.C14.points_check_needed", "P3R.Witness.C14.surplus_point_lengths", "P3R.Witness.C14.surplus_point_rejected",
         "P3R.C14.friPhases_eq_replicate", "P3R.C14.friPhases_all_mmcs", "P3R.C14.friPhases_cap_independent", "P3R.C14.stepUsesAt_mmcs",
         "P3R.Witness.C14.blowup_needed", "P3R.Witness.C14.skipped_salts_dead",
+        # label distinctness for every shape (Props/C14Labels.lean)
+        "P3R.C14.alloc_labels_nodup_uni", "P3R.C14.alloc_labels_nodup_batch",
+        "P3R.C14.alloc_labels_nodup_uni_all", "P3R.C14.alloc_labels_nodup_batch_all",
+        "P3R.C14.packed_position_unique_uni", "P3R.C14.packed_position_unique_batch",
+        "P3R.C14.allDistinct_uni", "P3R.C14.allDistinct_batch", "P3R.Packing.allDistinct_iff",
+        "P3R.Packing.render_injective", "P3R.Packing.nm_ok", "P3R.Packing.Nm.str_injective",
+        "P3R.Packing.uniPub_render", "P3R.Packing.uniPriv_render", "P3R.Packing.batchPub_render", "P3R.Packing.batchPriv_render",
+        "P3R.Packing.uniT_nodup", "P3R.Packing.batchT_nodup",
+        "P3R.Witness.C14.render_examples", "P3R.Witness.C14.wUni_sizes", "P3R.Witness.C14.wBatch_sizes", "P3R.Witness.C14.wUni_pos",
+        "P3R.Witness.C14.digit_in_name_collides", "P3R.Witness.C14.dot_in_name_collides", "P3R.Witness.C14.empty_name_collides",
     ],
     "run": run,
     "trusted_base": [
-        "label naming scheme of lean/P3R/Model/Packing.lean (distinctness of labels is checked per generated shape by the driver and by the "
-        "harness, not proved)",
+        "label naming scheme of lean/P3R/Model/Packing.lean: distinctness of the model's labels is PROVED for every shape "
+        "(P3R.C14.alloc_labels_nodup_uni/batch, via structured labels Model/PackingLabels.lean + P3R.Packing.render_injective; the driver's "
+        "per-shape `distinct` flag is still evaluated, P3R.C14.allDistinct_uni/batch say it is always 1); that the harness's two walks give "
+        "the same names to the Rust targets / elements is checked per generated shape by the line-exact comparison (next item)",
         "harness/src/c14_cfg.rs: the two hand-written walks (proof structures, target structures) that give names to elements and targets",
         "BatchProofTargets::opened_values_targets and CommonDataTargets::preprocessed are crate-private: per-instance opened-value targets are "
         "reached through the public flattened view, the preprocessed commitment's targets by elimination (last unlabelled public inputs)",
@@ -330,6 +342,9 @@ CHECK = {
         "C05/C07/C08/C13/C20 and is observed here only through the perturbation campaign",
     ],
     "assumptions": [
+        "alloc_labels_nodup_* / packed_position_unique_* / allDistinct_*: no hypothesis on the shape (every length / option / count, every D, E); "
+        "render_injective rests on the side condition NameOk (non-empty, no '.', no decimal digit) of the 30 component names, discharged by "
+        "`decide` (nm_ok); each clause is needed (P3R.Witness.C14.digit_in_name_collides / dot_in_name_collides / empty_name_collides)",
         "packing_aligned_* / lengths_eq_* / packed_position_*: no hypothesis (the former one, well-formed sibling counts, is gone with /repo "
         "fc0321f: allocation and packing both read sibling_values.len(); generated shapes include malformed counts)",
         "no_dead_input_*_built: the verifier's build-time check of the per-query folding data passes (friSibCheck = ok); every other shape — in "
@@ -377,7 +392,8 @@ MANIFEST_ENTRY = {
         "category": "proof",
         "text": "for every proof shape (tables, widths, optional openings, chunks, cap heights, FRI phases and arities, queries, batch "
                 "openings, salts, hiding random openings, lookup terminals, preprocessed commitment, D, E): packed public / private vectors = "
-                "public / private allocations in order, lengths = public_flat_len / private_flat_len, and every allocated input is consumed by "
+                "public / private allocations in order, lengths = public_flat_len / private_flat_len, positions are identified by labels that are "
+                "pairwise different for every shape (alloc_labels_nodup_*, packed_position_unique_*), and every allocated input is consumed by "
                 "the verifier model for every shape whose verifier circuit gets built (a malformed sibling count is refused at build time: "
                 "malformed_siblings_rejected, replayed; without the build check surplus siblings are dead: sib_check_needed). Tied to the Rust "
                 "by line-exact comparison of allocation traces and packed label sequences obtained from sentinel-filled proofs through the real "
@@ -387,7 +403,9 @@ MANIFEST_ENTRY = {
                 "refusal of malformed per-query folding data is tied to the Rust by the sibcheck correspondence",
         "design_ref": "4/C14",
     },
-    "level_note": "Lean kernel + 3 standard axioms; label distinctness checked at run time, not proved; consumption model is block-level; "
+    "level_note": "Lean kernel + 3 standard axioms; label distinctness proved for every shape (alloc_labels_nodup_*, packed_position_unique_*: "
+                  "a label names exactly one position / one allocated input; string rendering of structured labels proved injective); "
+                  "consumption model is block-level; "
                   "two crate-private target fields reached indirectly"
                   "",
 }
